@@ -20,7 +20,7 @@ THEOREMS = ["Mesa.ASet." + t for t in (
     "C03_groupby_partitions_in_order", "C03_constructor_is_ordered_set", "C03_add_discard_remove",
     "C03_len_iter_contains_getitem_agree", "C03_no_duplicates_all_histories",
     "C03_inplace_equals_copy_and_copy_preserves", "C03_get_set_agg_map_list_semantics")]
-COUNTS = {"quick": 1000, "thorough": 40000}
+COUNTS = {"quick": 1000, "thorough": 150000}
 TRUSTED = [
     "CPython dict / WeakKeyDictionary insertion order; sorted() is a stable sort and reverse=True keeps the order of equal keys (the model uses List.mergeSort)",
     "select(at_most=float): the count int(len*f) is computed on IEEE doubles; the driver recomputes it with Lean Float (same operations), the theorems take the count as a parameter",
